@@ -1063,8 +1063,16 @@ def load_vi_bindings() -> KeyBindingsBase:
         buffer = event.current_buffer
         c = buffer.document.current_char
 
-        if c is not None and c != "\n":
-            buffer.insert_text(c.swapcase(), overwrite=True)
+        if c and c != "\n":
+            # Replace exactly this one character. (`insert_text(...,
+            # overwrite=True)` overwrites as many characters as it inserts, and
+            # the swapped case of one character can be longer: 'ß' -> 'SS'.)
+            swapped = c.swapcase()
+            pos = buffer.cursor_position
+            buffer.document = Document(
+                buffer.text[:pos] + swapped + buffer.text[pos + 1 :],
+                pos + len(swapped),
+            )
 
     @handle("g", "u", "u", filter=vi_navigation_mode & ~is_read_only)
     def _lowercase_line(event: E) -> None:
